@@ -78,36 +78,36 @@ Theorem C11_prefix_refuted : escapes cfg_prefix.
 Proof. exact prefix_escapes. Qed.
 Print Assumptions C11_prefix_refuted.
 
-Theorem C11_prefix_refuted_hardlink_cwd : escapes (mkCfg false true true true true true).
+Theorem C11_prefix_refuted_hardlink_cwd : escapes (mkCfg false true true true true true true).
 Proof. exact refuted_hardlink_cwd. Qed.
 Print Assumptions C11_prefix_refuted_hardlink_cwd.
 
-Theorem C11_prefix_refuted_raw_absolute_title : escapes (mkCfg true false true true true true).
+Theorem C11_prefix_refuted_raw_absolute_title : escapes (mkCfg true false true true true true true).
 Proof. exact refuted_abs_title. Qed.
 Print Assumptions C11_prefix_refuted_raw_absolute_title.
 
 Theorem C11_prefix_refuted_link_replaces_working_directory :
-  lookup (st_fs (fst (pushes (mkCfg true true false true true true) false wd0 cwd0 (mkStore fs1 [] []) os_replace_wd))) wd0
+  lookup (st_fs (fst (pushes (mkCfg true true false true true true true) false wd0 cwd0 (mkStore fs1 [] []) os_replace_wd))) wd0
   <> Some NDir.
 Proof. exact refuted_replace_wd. Qed.
 Print Assumptions C11_prefix_refuted_link_replaces_working_directory.
 
 (* directories created or entered through a link (named blob below a link) *)
-Theorem C11_prefix_refuted_directory_through_link : escapes (mkCfg true true true false true true).
+Theorem C11_prefix_refuted_directory_through_link : escapes (mkCfg true true true false true true true).
 Proof. exact refuted_dir_through_link. Qed.
 Print Assumptions C11_prefix_refuted_directory_through_link.
 
 (* regular entry / named blob written through a final link whose raw target leaves the tree *)
-Theorem C11_prefix_refuted_write_through_link : escapes (mkCfg true true true true false true).
+Theorem C11_prefix_refuted_write_through_link : escapes (mkCfg true true true true false true true).
 Proof. exact refuted_write_through_link. Qed.
 Print Assumptions C11_prefix_refuted_write_through_link.
 
-Theorem C11_prefix_refuted_blob_through_link : escapes (mkCfg true true true true false true).
+Theorem C11_prefix_refuted_blob_through_link : escapes (mkCfg true true true true false true true).
 Proof. exact refuted_blob_through_link. Qed.
 Print Assumptions C11_prefix_refuted_blob_through_link.
 
 (* unpack directory reached through a link (neither of the last two repairs) *)
-Theorem C11_prefix_refuted_unpack_through_link : escapes (mkCfg true true true false false true).
+Theorem C11_prefix_refuted_unpack_through_link : escapes (mkCfg true true true false false true true).
 Proof. exact refuted_title_through_link. Qed.
 Print Assumptions C11_prefix_refuted_unpack_through_link.
 
@@ -119,7 +119,7 @@ Example C11_example_remode_skips_links :
 Proof. exact remode_skips_links. Qed.
 
 (* os.Chtimes through a freshly unpacked link sets the times of a file outside *)
-Theorem C11_prefix_refuted_times_through_link : escapes (mkCfg true true true true true false).
+Theorem C11_prefix_refuted_times_through_link : escapes (mkCfg true true true true true false true).
 Proof. exact refuted_touch. Qed.
 Print Assumptions C11_prefix_refuted_times_through_link.
 
@@ -291,3 +291,15 @@ Example C11_example_first_push_creates_wd :
   lookup (st_fs (fst (pushes cfg_fixed false wd0 cwd0 (mkStore fs3 [] []) os_first_push))) wd0 = Some NDir /\
   view_at (st_fs (fst (pushes cfg_fixed false wd0 cwd0 (mkStore fs3 [] []) os_first_push))) [b "victim"] = view_at fs3 [b "victim"].
 Proof. exact first_push_ok. Qed.
+
+(* seed C11-r3m2: a per-store memory of checked directories (cfg flag fixK = false) lets a
+   three-step history escape; the repaired store walks the path again and refuses *)
+Theorem C11_prefix_refuted_cached_checked_directories : escapes (mkCfg true true true true true true false).
+Proof. exact refuted_cached_dir. Qed.
+Print Assumptions C11_prefix_refuted_cached_checked_directories.
+
+Example C11_example_revisit_history_refused :
+  snd (run0 cfg_fixed os_cached_dir) = [true; true; false] /\
+  view_at (fst (run0 cfg_fixed os_cached_dir)) [b "r"; b "victim"] = view_at fs0 [b "r"; b "victim"] /\
+  view_at (fst (run0 cfg_fixed os_cached_dir)) [b "r"; b "w"; b "a"; b "e"] = VSym (b "q/..").
+Proof. exact cached_dir_fixed. Qed.
